@@ -115,6 +115,22 @@ CHECKS = {
          "for every layout.",
          "Correspondence table (firmware task <-> trxcon lchan) is part of the harness; sched_mframe.c built against two stand-in system headers; UBSan shift check off for 1<<31 in mframe_schedule.",
          "DESIGN.md 2/C11", "cbuild"),
+ "C06": ("model_checking",
+         "explicit-state BFS in C over the real sercomm.c static state (send / pull+feed / noise / over-long events, replay from reset, state fingerprints) plus exhaustive transparency sweeps; per-DLCI FIFO reference",
+         "Several alphabets explored to a fixpoint (depth 14-18) and the design's full alphabet to its depth bound on the unmodified HOST_BUILD sercomm.c "
+         "linked with the tree's msgb.c/talloc.c under ASan/UBSan; every payload of length 0-2 over all 256 octet values, lengths 3-6(7) over the "
+         "special-octet alphabet and the boundary lengths 2045-2048 on all 128 DLCIs; 56 160 resync scenarios (over-long frames x noise x following "
+         "frames); wire rules checked on every pulled octet.",
+         "Sequential use only (interrupt-level atomicity on the ARM target is out of reach); states compared by 128-bit fingerprint; DLCI 128 echo modelled as re-queue.",
+         "DESIGN.md 2/C06", "cbuild"),
+ "C08": ("model_checking",
+         "explicit-state BFS in C over the real l1s.tdma_sched (schedule / schedule_set / execute+advance / execute / reset, <=K outstanding items, ring position kept) plus exhaustive order and capacity sweeps",
+         "All states reachable with up to K outstanding items over all 25 offsets and 8 priorities (incl. INT16 extremes), five set shapes and a "
+         "re-scheduling callback are visited on the unmodified tdma_sched.c (4.9e6 states quick, 1.2e8 thorough, frontiers exhausted); every frame step is "
+         "compared with a frame->multiset reference; all rank assignments of up to 8 priorities and the 9th-item refusal at all 25x25 (position, offset) "
+         "pairs are swept completely.",
+         "Host build; callbacks always report success; items of the current frame at reset accepted either way.",
+         "DESIGN.md 2/C08", "cbuild"),
 }
 
 PENDING = {}
